@@ -452,7 +452,7 @@ def check_strict_graphs(ctx, U):
 
 
 def run(ctx):
-    n = 28 if ctx.tier == "quick" else 250
+    n = 28 if ctx.tier == "quick" else 600
     core.WARM_P = 0.0
     if ctx.replay:
         c = ctx.replay["case"]
